@@ -3,7 +3,7 @@ from iauth_common import *
 PROFILE = dict(p_reannounce=0.15, maxlen=80, maxcli=6)
 
 def run(chk):
-    r = standard_run(chk, PROFILE, 400, 10000)
+    r = standard_run(chk, PROFILE, 1000, 10000)
     if r is None: return
     drv, impl, scns, ms, ds = r
     def judge(scn, i, dp, mp):
